@@ -2,6 +2,7 @@ package listener
 
 import (
 	"encoding/hex"
+	"math"
 	"math/big"
 
 	"github.com/ChainSafe/sygma-relayer/chains/btc/config"
@@ -37,12 +38,12 @@ func DecodeDepositEvent(evt btcjson.TxRawResult, resource config.Resource, feeAd
 			isBridgeDeposit = true
 			resourceID = resource.ResourceID
 			if vout.ScriptPubKey.Type == WitnessV1Taproot {
-				amount.Add(amount, big.NewInt(int64(vout.Value*1e8)))
+				amount.Add(amount, big.NewInt(btcToSatoshi(vout.Value)))
 			}
 		}
 
 		if feeAddress.String() == vout.ScriptPubKey.Address {
-			feeAmount.Add(feeAmount, big.NewInt(int64(vout.Value*1e8)))
+			feeAmount.Add(feeAmount, big.NewInt(btcToSatoshi(vout.Value)))
 		}
 	}
 
@@ -56,6 +57,15 @@ func DecodeDepositEvent(evt btcjson.TxRawResult, resource config.Resource, feeAd
 		Amount:        amount,
 		Data:          data,
 	}, true, nil
+}
+
+// btcToSatoshi converts an output value as reported by the node (a decimal
+// number of BTC with 8 fractional digits, parsed into a float64) into satoshi.
+// The product has to be rounded to the nearest integer: the float64 closest to
+// a decimal such as 0.29 lies slightly below it, so truncating value*1e8
+// loses one satoshi (0.29 BTC -> 28999999).
+func btcToSatoshi(value float64) int64 {
+	return int64(math.Round(value * 1e8))
 }
 
 func SliceTo32Bytes(in []byte) [32]byte {
